@@ -493,3 +493,32 @@ def _resolve_up(ctx, node_key, site, argi):
         t = prog.bp(caller).arg_term(cs[1], t0[1] - 1)
         body = caller
     return t
+
+
+def q10_store_fabricates_no_effect(ctx, rep):
+    """effects (in particular Effect::Action, which re-enters the queue at its back) come only
+    from the user's reducers: no body that runs synchronously on the reducer thread constructs a
+    value of the effect type, so a dequeued action is never re-posted behind later dispatches"""
+    R = "Q10"
+    A = ctx.A
+    eff = A.adt_by_name("Effect")
+    epath = eff["path"]
+    vnames = {v["name"] for v in eff["variants"]}
+    cl = A.reducer_closure[0]
+    reach = ctx.sync_reach([cl])
+    rep.floor(R, "bodies running synchronously on the reducer thread", len(reach), 4)
+    bad = []
+    for b in reach.values():
+        rep.note_fn(b.path)
+        cfg = ctx.prog.cfg(b)
+        for bi in cfg.nodes():
+            for st in b.blocks[bi]["stmts"]:
+                if st["k"] == "assign" and st["rv"]["k"] == "agg" and st["rv"].get("agg") == "adt" and st["rv"].get("adt") == epath:
+                    bad.append((b, bi, str(st["rv"].get("variant"))))
+        for s in ctx.prog.sites(b):
+            if s.ck.startswith(epath + "::") and s.ck.split("::")[-1] in vnames:
+                bad.append((b, s.bb, s.ck.split("::")[-1]))
+    if not bad:
+        rep.ok(R, "reducer-thread-fabricates-no-effect", ctx.where(cl), "none of the %d bodies that run synchronously on the reducer thread constructs an %s" % (len(reach), epath))
+    for b, bi, v in bad:
+        rep.bad(R, "reducer-thread-fabricates-no-effect:%s:%s" % (short(b.path), v), ctx.where(b, bi), "%s constructs Effect::%s on the reducer thread: the store re-posts work of its own (an Effect::Action re-enters the queue behind later dispatches)" % (short(b.path), v))
